@@ -952,7 +952,11 @@ int main(int argc, char** argv)
     std::setvbuf(stdout, nullptr, _IOLBF, 0);
     g_thorough = argc > 1 && std::string(argv[1]) == "thorough";
     const std::string only = argc > 2 ? argv[2] : "";
-    vh::rng_t rng(vh::env_seed() * 0x9E3779B97F4A7C15ULL + 6);
+    // the stream is seeded with a MIXED value: splitmix64 states of consecutive raw seeds (or of seed * golden ratio) are the same
+    // stream shifted by a few draws
+    vh::rng_t seeder(vh::env_seed() ^ 0xC06C06C06C06ULL);
+    seeder.next();
+    vh::rng_t rng(seeder.next());
     nano::verif::g_rng_seed.store(vh::env_seed() + 1);
 
     probes();
